@@ -840,7 +840,8 @@ TRUSTED_BASE = ['modelled (not verified) code: pybtex/database/__init__.py 65-10
                 'pybtex/bibtex/interpreter.py 284-306, pybtex/style/formatting/__init__.py 75-91, pybtex/__init__.py 112-165; the .bib syntax layer is not modelled: a file is the list of its (key, crossref) entries '
                 '(the harness renders each database to .bib text with varied delimiters / field-name case and runs the real parser)']
 ASSUMPTIONS = ['str.lower is modelled on ASCII keys (non-ASCII letters in keys are outside the claimed domain, DESIGN.md 2.2)']
-PARTIAL = ['the theorems are about the model of BibliographyData / command_read / format_bibliography; the .bib syntax layer, strict error mode (first report raised) and both engines end to end (\\bibitem / cite$ order) are covered by the correspondence run and the oracle only',
+PARTIAL = ['Entry._find_field is modelled only as the set of entries walked (chain); field values are C14\'s business',
+           'the theorems are about the model of BibliographyData / command_read / format_bibliography; the .bib syntax layer, strict error mode (first report raised) and both engines end to end (\\bibitem / cite$ order) are covered by the correspondence run and the oracle only',
            'filtered_equals_unfiltered / filtered_reports_equal hold under parents_follow_children; without it the statement is refuted (filtered_parent_first_refuted, known finding F13)',
            'min_crossrefs < 1 (outside the property text) behaves like 1 in model and code; the oracle is silent there',
            'citation lists that spell one key in two ways (outside the property text) are compared up to letter case only']
